@@ -169,16 +169,16 @@ def render(d):
         else:
             L += ['@specifiers.forwards_to_function(%s)' % deco_args(d, 'inner'), 'def w(%s):' % o, '    ' + ret('inner')]
     elif d.form == 'method':
-        L += ['class K(object):', '    def inner(%s):' % sc, '        return 0',
+        L += ['class K(object):', '    def __len__(self):', '        return 0        # instances are empty containers: falsy', '    def inner(%s):' % sc, '        return 0',
               "    @specifiers.forwards_to_method(%s)" % deco_args(d, "'inner'"),
               '    def w(%s):' % so, '        ' + ret('self.inner')]
     elif d.form == 'ivar':
         L += ['def inner(%s):' % c, '    return 0', 'class Holder(object):', '    inner = staticmethod(inner)',
-              'class K(object):', '    holder = Holder()',
+              'class K(object):', '    def __len__(self):', '        return 0        # instances are empty containers: falsy', '    holder = Holder()',
               "    @specifiers.forwards_to_method(%s)" % deco_args(d, "'holder.inner'"),
               '    def w(%s):' % so, '        ' + ret('self.holder.inner')]
     elif d.form == 'super':
-        L += ['class Base(object):', '    def w(%s):' % sc, '        return 0',
+        L += ['class Base(object):', '    def __len__(self):', '        return 0        # instances are empty containers: falsy', '    def w(%s):' % sc, '        return 0',
               'class K(Base):', '    @specifiers.forwards_to_super(%s)' % deco_args(d),
               '    def w(%s):' % so, '        ' + ret('super().w'),
               'class Sub(K):', '    pass']
